@@ -125,6 +125,16 @@ func genFaulty(r *simrt.RNG, tier string, variant int, prop string) Plan {
 	for i := 0; i < n1; i++ {
 		p.Ops = append(p.Ops, mk(1, 0))
 	}
+	if prop != "C04" && !cp.NoReconnect && r.Bool(0.35) {
+		// calls that race with the *end* of the reconnect window: issued a few
+		// scheduler steps after the upgrade response of the redial reached the client
+		n5 := 1 + r.Intn(3)
+		for i := 0; i < n5; i++ {
+			op := mk(5, 0)
+			op.Group = r.Intn(24) // number of scheduler yields after the upgrade response
+			p.Ops = append(p.Ops, op)
+		}
+	}
 	for i := 0; i < 2; i++ {
 		op := mk(2, 0)
 		op.Kind, op.Err, op.Size = "call", false, 10
@@ -228,6 +238,13 @@ func runFaulty(e *Env, p *Plan) {
 		}
 	}
 	isFired := func() bool { fmu.Lock(); defer fmu.Unlock(); return fired }
+	redialC, healedC := make(chan struct{}), make(chan struct{})
+	var redialOnce sync.Once
+	e.N.DeliverHook = func(pipe int, ws bool, dir string, off int64) {
+		if ws && pipe > 0 && dir == "s2c" {
+			redialOnce.Do(func() { close(redialC) })
+		}
+	}
 	w, err := e.Build(p)
 	if err != nil {
 		e.Violate("setup", "building the world failed on a healthy network: %v", err)
@@ -332,6 +349,19 @@ func runFaulty(e *Env, p *Plan) {
 				e.Probe("window-call-issued")
 				w.Start(op, nil)
 			})
+		case 5:
+			w.Register(op)
+			e.S.Go("gate-"+strconv.Itoa(op.Tok), func() {
+				select {
+				case <-redialC:
+					for i := 0; i < op.Group; i++ {
+						simrt.Yield("redial-race-delay")
+					}
+					e.Probe("call-racing-reconnect-completion")
+				case <-healedC: // no redial happened (no-op fault, exhausted plan): issue it anyway
+				}
+				w.Start(op, nil)
+			})
 		}
 	}
 	if !e.S.Settle(dur(p.Param("settle1_ms", 500) * 1e6)) {
@@ -354,6 +384,10 @@ func runFaulty(e *Env, p *Plan) {
 	}
 	e.N.Heal()
 	healStep := e.S.Step()
+	if !e.S.Settle(time.Minute) {
+		return
+	}
+	close(healedC)
 	post := 2 * time.Minute
 	if e.N.Fired["blackhole"] > 0 {
 		post = 8 * time.Minute // a one-way black hole is only noticed when the sender's TCP gives up
